@@ -142,6 +142,12 @@ def make_symbolic(eng, name, spec, st, assumptions):
             cell = {"n": n, "items": z3.Array(name + ".items", z3.IntSort(), zsort(spec.elem))}
         st = St(st.env, {**st.heap, name: cell}, st.pc + [n >= 0], st.ghost)
         return Ref(name, "list"), st
+    if isinstance(spec, (tuple, list)):
+        vals = []
+        for j, sp in enumerate(spec):
+            v, st = make_symbolic(eng, f"{name}_{j}", sp, st, assumptions)
+            vals.append(v)
+        return tuple(vals), st
     if isinstance(spec, dict):
         out = {}
         for key, sp in spec.items():
@@ -222,7 +228,11 @@ def generate(contract, registry=REG, finite=None, grid=None):
         st = St({}, {}, [], dict(contract.ghost))
         params = [a.arg for a in fn.args.posonlyargs + fn.args.args + fn.args.kwonlyargs]
         if fn.args.vararg:
-            raise Unsupported("*args in a verified function")
+            # *args: verified per arity - the contract gives a tuple of specs
+            if not isinstance(contract.params.get(fn.args.vararg.arg), (tuple, list)):
+                raise Unsupported("*args in a verified function (give a tuple of specs for a fixed arity)")
+            params.append(fn.args.vararg.arg)
+            run.assumptions.add(f"{contract.key}: verified for {len(contract.params[fn.args.vararg.arg])} extra positional argument(s)")
         if fn.args.kwarg:
             # **kwargs: verified per arity - the contract fixes the keyword names ({name: spec}); stated as an assumption
             if not isinstance(contract.params.get(fn.args.kwarg.arg), dict):
